@@ -171,7 +171,7 @@ func cmdRun(args []string) int {
 			inconclusive = append(inconclusive, fmt.Sprintf("VACUOUS harness=%s: no assertion reached", hr.Name))
 		}
 		for _, tag := range hr.Require {
-			if st.Tags[tag] == 0 {
+			if st.Tags[tag] == 0 && rep.Completed { // a run cut short by violations cannot be blamed for what it did not reach
 				inconclusive = append(inconclusive, fmt.Sprintf("VACUOUS harness=%s: required tag %q never reached", hr.Name, tag))
 			}
 		}
